@@ -53,7 +53,7 @@ def server(h):
         return p
     env = dict(os.environ)
     env["PYTHONHASHSEED"] = h
-    env["PYTHONPATH"] = os.path.dirname(os.path.dirname(os.path.dirname(os.path.abspath(__file__))))
+    env["PYTHONPATH"] = os.path.dirname(os.path.dirname(os.path.dirname(os.path.abspath(__file__)))) + (os.pathsep + env["PYTHONPATH"] if env.get("PYTHONPATH") else "")
     p = subprocess.Popen([sys.executable, "-m", "isim.hashserver"], stdin=subprocess.PIPE, stdout=subprocess.PIPE, stderr=subprocess.DEVNULL, env=env, text=True, bufsize=1)
     hello = json.loads(p.stdout.readline())
     if not hello.get("ready") or hello.get("hashseed") != h:
